@@ -5,11 +5,54 @@ V = os.path.dirname(os.path.dirname(os.path.abspath(__file__)))
 ALL = [f"C{i:02d}" for i in range(1, 21)]
 # id -> (technique, level text, level note, design section)
 CLAIMS = {
+ "C01": ("CBMC bounded symbolic execution of liberasurecode_decode (public API, real RS/ISA-L back ends) and of the back-end decode ops on symbolic payloads, one SAT query per (shape, erasure set, order, checksum type, force flag)",
+         "Solver verdict for every payload content within the byte bound: decode of fragments from the independent serializer returns exactly the data and length, for every enumerated tolerated erasure set, reversed/rotated/duplicated/surplus survivor lists, both checksum types, with and without forced checks; alignment of every fragment buffer nondeterministic. Bounded in shape (L2 k+m<=4, L1 up to (10,4)), payload (<=2 blocks) and enumerated lengths.",
+         "GF(2^16) arithmetic contract stub (C04 K1/K2), clean-room ISA-L primitives, bitwise zlib CRC model, reference serializer as fragment source; split oracle (D6) for k>2 at L1; flat-XOR only at the back-end interface", "5/C01"),
+ "C02": ("CBMC: every non-empty subset of the stripe through liberasurecode_decode / reconstruct_fragment for small shapes with assertion 'negative error or exact bytes' plus CBMC memory-safety checks; flat-XOR decoder on erasure sets between hd and m",
+         "Solver verdict over all payloads for each enumerated sub-multiset: success implies exact original bytes, fewer than k fragments implies an error, no out-of-bounds access, no invalid free. Bounded to the enumerated small shapes / sampled XOR band sets.",
+         "same trusted base as C01; exact-size heap objects make any over-read a CBMC failure", "5/C02"),
+ "C03": ("CBMC: liberasurecode_reconstruct_fragment output compared byte for byte (80-byte header incl. both CRCs + payload) with the independent serializer, for every erasure set x destination of small shapes; destinations outside 0..k+m-1 must fail; back-end reconstruct ops on larger shapes",
+         "Solver verdict over all payloads per (shape, erasure set, destination, checksum type). Bounded to k+m<=4 at the API and sampled sets of larger shapes at the back-end interface.",
+         "as C01; LIBERASURECODE_WRITE_LEGACY_CRC unset", "5/C03"),
+ "C04": ("CBMC: rs_galois.c re-instantiated at w=8 proved equal to carry-less multiplication for all operand pairs (K1); real make_systematic_matrix executed symbolically and compared with the closed form L_j(r)/L_j(k); region kernels with symbolic block size; back-end encode/decode on symbolic words for every k-subset of rows (MDS); native exhaustive comparison of the production-width tables with the contract (K2)",
+         "Solver verdicts: table algorithm correct for every operand pair at width 8; generator equals the closed form entry by entry for the enumerated shapes; parity equals the independent GF(2^16) model for every data word; every k-subset of rows decodes for the listed shapes. Production-width table contents: exhaustive native comparison (2^32 pairs), not a solver verdict.",
+         "closed form and field arithmetic of model/ref_format.c; width-8 instantiation rewrites exactly two #define lines", "5/C04"),
+ "C05": ("CBMC: real init_xor_hd_code / xor_code_encode / xor_hd_decode / xor_reconstruct_one for all 38 tables on symbolic payloads against a frozen independent copy of the equations; minimum distance as a solver query over all non-zero data vectors; xor_bufs_and_store with symbolic length, portable and SSE2 builds",
+         "Solver verdict over all payloads for every enumerated erasure set |E|<hd (exhaustive for tables with k+m<=11 in quick, all tables in thorough), both redundant tables equal the frozen equations, weight of every non-zero codeword >= hd (all 2^k-1 data vectors), unsupported shapes refused for the whole (k,m,hd) box.",
+         "model/xor_eq.c frozen from the pinned revision; payload 4 bytes for the sweep, 1/16/20/33 on selected tables", "5/C05"),
+ "C06": ("CBMC: liberasurecode_fragments_needed with symbolic disjoint request/exclude bitmasks; answer checked for termination, range, distinctness, disjointness and GF(2)-span sufficiency (bit-vector elimination over the frozen equations) / exactly k entries for the MDS codes",
+         "One solver query covers every (R,X) pair within tolerance for a table/shape. Beyond tolerance: error or still-correct list.",
+         "MDS sufficiency of any k rows rests on C04/C19; list order ascending/descending only", "5/C06"),
+ "C07": ("CBMC: public liberasurecode_encode on symbolic data; every byte of every fragment compared with an independently written serializer (explicit byte offsets, own CRC-32, own GF arithmetic, frozen XOR equations)",
+         "Solver verdict over all data contents for each enumerated (shape, checksum type, length): all fragment bytes equal the reference, equal fragment lengths, size queries agree, stripe verifies, input untouched.",
+         "bitwise zlib CRC model (validated natively against libz in C10); lengths 0..3*k*w only", "5/C07"),
+ "C08": ("CBMC: size queries on real instances for a fully symbolic data_len (0..2^20) and symbolic unknown descriptor; link to encode's fragment_len through the C07 harness on enumerated lengths",
+         "Solver verdict for every length in the statement's range per enumerated (backend,k).", "k enumerated (all 1..31 for ISA-L, 38 XOR tables, RS k<=16 in thorough)", "5/C08"),
  "C09": ("CBMC bounded symbolic execution of is_invalid_fragment_header / get_fragment_metadata / decode / reconstruct on a fully symbolic 80-byte header with uninterpreted CRCs, compared with a reference predicate",
          "Solver verdict over all 2^640 headers and all CRC values: implementation acceptance == reference predicate, -EBADHEADER otherwise, fragment unmodified, no out-of-bounds access (exact-size object). Bounded only in payload (2 bytes) and instance shape for the decode/reconstruct modes.",
          "CRC functions uninterpreted (D4); decode/reconstruct modes use the null back end (k=1,m=1); env model of section 4", "5/C09"),
+ "C10": ("CBMC: verifier on a symbolic fragment with uninterpreted CRCs (mismatch flag == both CRCs differ, checksummed region == (fragment+80,size)); writers with the legacy-CRC environment switch enumerated; liberasurecode_crc32_alt proved equal to a bitwise sign-extending model (one-step lemma over all states + all buffers <= 4 bytes)",
+         "Solver verdicts over all headers/payload checksum values, all data for the writers, all 2^40 (state,byte) pairs for the CRC step.", "zlib crc32 uninterpreted or modelled (model validated natively against libz each run)", "5/C10"),
+ "C11": ("CBMC: arbitrary accepted opposite-endian fragment vs its field-swapped native twin through is_invalid_fragment_header and get_fragment_metadata, CRCs uninterpreted",
+         "Solver verdict over all opposite-endian headers: same verdict, same logical metadata field by field, payload mismatch detected equally.", "twins sealed consistently (D4)", "5/C11"),
+ "C12": ("CBMC: is_invalid_fragment and liberasurecode_verify_stripe_metadata on fully symbolic headers/metadata (CRCs uninterpreted) against a reference verdict, per back-end instance",
+         "Solver verdict over all headers and checksum values per instance; stripe verification over 1..3 symbolic metadata blocks.", "instances enumerated (null, flat_xor(3,3,3), rs(2,1), isa-l(2,1); more in thorough)", "5/C12"),
+ "C13": ("CBMC with --memory-leak-check: every public entry point with nondeterministic valid/NULL pointers, symbolic counts/lengths/descriptors/destinations; instance_create over a symbolic (k,m,hd) box for flat_xor/null and enumerated boundary shapes for the matrix back ends; accepted shapes run a full cycle",
+         "Solver verdict over all argument combinations per entry point: invalid => negative code, no memory fault, no leak.", "allocation failure out of scope; matrix back ends: boundary shapes enumerated", "5/C13"),
+ "C14": ("CBMC: registry functions under a symbolic history with a fully symbolic counter start, plus a one-step inductive obligation from an arbitrary well-formed registry; API-level histories with nondeterministic operations and enumerated counter presets",
+         "Bounded model checking of histories (depth 5/7 registry, 3/5 API) against a set model; the inductive step extends descriptor uniqueness/list well-formedness to histories of any length.", "typed static instances in the registry harness", "5/C14"),
+ "C15": ("CBMC: exact-size caller buffers + saved copies in the encode/decode/reconstruct/validation harnesses; encode executed on two instances around a nondeterministic unrelated activity and compared byte for byte",
+         "Solver verdict over all data: inputs unchanged and never over-read; encode bytes independent of the intervening activity.", "thread aspect only in the sense of C18", "5/C15"),
+ "C16": ("CBMC --memory-leak-check and its double-free/use-after-free/invalid-free checks on success paths with cleanup, documented error paths, invalid arguments and failing back-end operations",
+         "Per-call heap discipline proved for every allocation site on every explored path, for histories of <= 4 API calls per query (not 300).", "allocation never fails; per-call inductive reading", "5/C16"),
+ "C17": ("CBMC with --memory-leak-check: instance op table replaced through the exported lookup by ops that fail on a symbolic flag; second call with real ops must behave normally",
+         "Solver verdict over data and the failure flag per (operation, back end).", "two calls per query", "5/C17"),
+ "C19": ("CBMC: isa_l_common.c adapters linked with clean-room GF(2^8) primitives: back-end ops on symbolic payloads with exhaustive erasure sets for small shapes, singular survivor sets and injected inversion failure, public API on the smallest shapes",
+         "Solver verdict over all payloads per (adapter, shape, erasure set); split oracle for k>2.", "model/gf8.c stands for any conforming ISA-L", "5/C19"),
+ "C20": ("CBMC: liberasurecode_decode(force_metadata_checks=1) on fragments with symbolic payload damage (uninterpreted CRCs, mismatch assumed) or re-sealed header edits, for enumerated survivor sets and damaged subsets",
+         "Solver verdict over data, damage byte/position and edited field value: valid fragments within tolerance => original bytes, else error.", "damage detection itself is C10", "5/C20"),
 }
-NA_REASON = "check not built yet in this session (work in progress; see DESIGN.md section 5 for the planned encoding)"
+NA_REASON = "CBMC 6.11 aborts on pthread code in this repository ('pointer handling for concurrency is unsound'); the planned hook-based sequentialisation (DESIGN.md C18) is not built, so no solver-based check is claimed"
 def main():
     checks = []
     for pid in ALL:
